@@ -273,7 +273,7 @@ U.fn('preprocessor.rs', 'PreProcessor::next_not_trivia', requires=['old(self).wf
      prologue='proof { self.token_stream.lemma_len(); }')
 U.fn('preprocessor.rs', 'PreProcessor::eat_until_else_or_endif', requires=['old(self).wf()'],
      ensures=HELPER_ENS + ['final(self).wf()', 'final(self).open() <= old(self).open()', 'ret == TokenKind::PreProcessor || ret == TokenKind::Error', 'ret == TokenKind::Error ==> final(self).has_error()'],
-     loops={0: dict(invariant=['self.hadv(old(self))', 'self.wf()', 'self.open() == old(self).open()', 'depth as int >= 1', '6 * (depth as int - 1) <= self.pos() - old(self).pos()', 'self.src().len() <= u32::MAX'],
+     loops={0: dict(invariant=['self.hadv(old(self))', 'self.wf()', 'self.open() <= old(self).open()', 'depth as int >= 1', '6 * (depth as int - 1) <= self.pos() - old(self).pos()', 'self.src().len() <= u32::MAX'],
                     decreases='self.irank()')},
      prologue='proof { self.token_stream.lemma_len(); }')
 
